@@ -115,6 +115,13 @@ def functions(ctx):
         f.__code__.co_flags |= extra
         f.pattern, f.ret_kind = 'all', 'class'
         out.append(f)
+    # generators annotated by the weaker protocols they also satisfy: the wrapper must be the same bidirectional one
+    for kind, sign in (('agen', 'HintSignAsyncIterator'), ('agen', 'HintSignAsyncIterable'), ('gen', 'HintSignIterator'), ('gen', 'HintSignIterable')):
+        for sub_ in (False, True):
+            ann = {'x': C('T_x'), 'return': (G.subscripted(sign, C('Y')) if sub_ else G.shallow(sign))}
+            f = AFunc(f'{kind}_returning_{sign[len("HintSign"):]}{"_subscripted" if sub_ else ""}', (), ('x',), None, (), None, kind, ann)
+            f.pattern, f.ret_kind = 'all', 'class'
+            out.append(f)
     # unannotated callable and return-only callable
     out.append(AFunc('bare', (), ('x',), None, (), None, 'sync', {}))
     out[-1].pattern, out[-1].ret_kind = 'none', 'none'
